@@ -77,11 +77,21 @@ fn c05_wire(seed: u64, rep: &Report) -> Result<(), String> {
     pool.set("query_parser_read_write_splitting", "true");
     pool.set("primary_reads_enabled", if primary_reads { "true" } else { "false" });
     pool.set("default_role", &format!("\"{}\"", default_role));
+    // a third of the scenarios on a pool with a second shard, the client never selecting one: which
+    // shard serves a statement is then the pool's default_shard policy, its role still the router's
+    let default_shard = if rng.chance(1, 3) { *rng.pick(&["shard_0", "random", "random_healthy", "shard_1"]) } else { "" };
+    if !default_shard.is_empty() {
+        let p1 = cell.add_mock("db.s1.primary.0");
+        let r3 = cell.add_mock("db.s1.replica.1");
+        pool.shards.push(crate::pgcat::ShardCfg { id: "1".into(), database: "db1".into(), servers: vec![cell.server(p1, "primary"), cell.server(r3, "replica")], mirrors: vec![] });
+        pool.set("default_shard", &format!("\"{}\"", default_shard));
+        rep.set_add("wire_default_shard_policy", default_shard);
+    }
     cfg.pools.push(pool);
     cfg.gset("connect_timeout", "400");
     cell.start_pgcat(&cfg, &StartOpts::default()).map_err(|e| format!("start: {:?}", e))?;
     let mut c = connect(&cell, "w").map_err(|e| e.to_string())?;
-    let cfgname = format!("primary_reads={},default_role={}", primary_reads, default_role);
+    let cfgname = format!("primary_reads={},default_role={}{}", primary_reads, default_role, if default_shard.is_empty() { String::new() } else { format!(",default_shard={}", default_shard) });
     // (qid, write?, shape, session role override)
     let mut sent: Vec<(String, bool, &'static str, String, bool)> = vec![];
     let mut session = "auto".to_string();
